@@ -177,8 +177,8 @@ def family_jobs(rng, tier):
     src = shapes.placement_jobs(rng, [(4, 4), (5, 5)] if tier == "quick" else [(4, 4), (4, 6), (5, 5), (6, 5), (6, 6)])
     src = [j for j in src if j["n"] == 8 and not j["tag"].endswith("checker")]
     hooks = [j for j in shapes.hook_jobs() if j["n"] == 8]
-    src += hooks[::4] if tier == "quick" else hooks
-    src += [j for j in shapes.multiarm_jobs(rng, 400 if tier == "quick" else 6000) if j["n"] == 8]
+    src += hooks[::6] if tier == "quick" else hooks
+    src += [j for j in shapes.multiarm_jobs(rng, 250 if tier == "quick" else 6000) if j["n"] == 8]
     jobs = []
     for i, j in enumerate(src):
         jobs.append({"H": j["H"], "W": j["W"], "conn": 4 if i % 2 else 8, "raw": j["vals"], "vscale": 1,
@@ -346,8 +346,8 @@ def run(ctx):
     failed = []
     for (name, H, W, base, conn) in cfgs:
         mc(ctx, failed, "Polygonize", dict(spec="Spec", invariants=INV, constants=dict(
-            H=H, W=W, VALS=set(base), CONN=conn, MUT="none")), name, coverage=(name == "3x3_b_c8"), timeout=4 * 3600,
-           workers=(4 if H * W <= 9 else 8 if H * W <= 12 else 16))   # small scopes: extra TLC workers only burn CPU
+            H=H, W=W, VALS=set(base), CONN=conn, MUT="none")), name, coverage=(name == "3x3_b_c8" and ctx.tier == "thorough"),
+           timeout=4 * 3600, workers=(4 if H * W <= 12 else 16))   # small scopes: extra TLC workers only burn CPU
     twins = [("nose", 3, 3, 8, "RegionsAreComponents"), ("straightfirst", 3, 3, 4, "LosslessHolds"),
              ("novisit2", 3, 3, 4, "LosslessHolds")]
     if ctx.tier == "thorough":
